@@ -73,6 +73,8 @@ PROFILES = {
                           ctx_types=("async", "nonasync"), p_ctx=0.5, faulty=("-", "-", "pause", "resume"),
                           p_lazyfail=0.05),
     "faultyctx": dict(BASE, ctx_types=("async",), p_ctx=0.6, faulty=("-", "pause", "resume"), p_share=0.1, p_catch=0.3),
+    "faultyalways": dict(BASE, ctx_types=("async",), p_ctx=0.6, faulty=("-", "pause_always", "resume_always", "pause"), p_share=0.1,
+                         p_catch=0.4, ncalls=2, p_sync=0.1),
     "faultysync": dict(BASE, ctx_types=("async",), p_ctx=0.6, faulty=("-", "pause", "resume"), p_sync=0.25, p_catch=0.3),
     "overflow": dict(BASE, ntasks=(3, 8), nleaf=(1, 3), p_task=0.6, p_item=0.25, p_sync=0.15, maxstack=(2, 5), ncalls=2,
                      p_catch=0.3),
@@ -165,7 +167,8 @@ class Gen(object):
             segs.append(seg([], term("raise" if r.random() < 0.15 else "return")))
             self.dfn_bodies[g] = segs
         return {"segs": json.loads(json.dumps(self.dfn_bodies[g])),
-                "dedup": {"fn": g, "key": r.randint(1, p["nkeys"]), "spell": r.randint(0, 3)}}
+                "dedup": {"fn": g, "key": r.randint(1, p["nkeys"]), "spell": r.randint(0, 3),
+                          "bind": r.choice(p.get("dbinds", ("fn", "fn", "inst1", "inst1", "inst2", "static")))}}
 
     def struct(self, t, yielded_before, depth):
         r, p = self.r, self.p
@@ -410,7 +413,7 @@ def chain(depth, variant="plain"):
     return program(tasks)
 
 
-def enum_dedup(max_len=3, bodies=(1, 2), nactors=2):
+def enum_dedup(max_len=3, bodies=(1, 2), nactors=2, bind="fn"):
     """Complete family for C12: the root yields [D(first call), actor_1, ..., actor_n]; every actor is a sequence of
     <= max_len steps over {W: wait one flush round, C: call the deduplicated function, X: dirty() then call};
     the deduplicated body waits for 1 or 2 flush rounds.  One function, one key, one batch kind."""
@@ -425,7 +428,7 @@ def enum_dedup(max_len=3, bodies=(1, 2), nactors=2):
             insts = []
 
             def new_inst():
-                tasks.append({"segs": json.loads(json.dumps(body)), "dedup": {"fn": 1, "key": 1, "spell": len(insts) % 4}})
+                tasks.append({"segs": json.loads(json.dumps(body)), "dedup": {"fn": 1, "key": 1, "spell": len(insts) % 4, "bind": bind}})
                 insts.append(len(tasks))
                 return len(tasks)
 
